@@ -135,13 +135,53 @@ def run(tier, seed):
                            "observed": {k: f.get(k) for k in ("count", "observed", "output", "stepcounts", "lo", "hi") if k in f},
                            "clauses": f.get("clauses"), "record": f, "behaviour": index.get(_key(f)), "signature": sig})
     res.extra["distinct_violation_signatures"] = dict(seen)
+    stack_honesty(res)
     return res.finish()
+
+
+def stack_honesty(res):
+    """Stack steps inside pipelines (underflow, swap on < 2 elements, the undocumented `drop`, the deprecated
+    push/pop): whatever such a program does, its application must be honest - no more successes than tuples,
+    and every tuple it does not count carries NaN.  Programs come from the stack machine of C12
+    (StackMachine.tla, three-step programs over a small alphabet including swap/drop/legacy steps)."""
+    import scriptlib
+    from suites import C12
+    vlib.build_harness("gvh")
+    r = vlib.tlc_must_pass(vlib.tlc("MC_C12", "MC_C12_leg3", workers=4, timeout=900, tag="MC_C12_leg3-C10"))
+    res.add_tlc(r)
+    beh = []
+    for i, x in enumerate(r["records"].get("REPLAY", [])):
+        b = C12.to_behaviour("s%d" % i, x)
+        for c in b["calls"]:
+            if c["do"] == "apply":
+                # only the C10 clauses: honesty (and NaN after a detected underflow); exact operands are C12's business
+                c["expect"] = {k: v for k, v in c["expect"].items() if k in ("honest", "nan_each")}
+                c["expect"]["honest"] = True
+        beh.append(b)
+    summary, mism = scriptlib.replay_scripts("C10-stack", beh)
+    res.behaviours_replayed += summary["behaviours"] - len(mism)
+    res.evaluations += summary["evaluations"]
+    res.extra["stack_honesty_programs"] = len(beh)
+    kf = {k["id"]: k for k in vlib.known_findings(PROP)}
+    for m in mism:
+        b = m["behaviour"]
+        fails = m["fails"]
+        fid = "KF-legacy-pop-underflow-masked"
+        if fid in kf and all(f["what"] in ("nan_each", "dishonest_count") and b["calls"][f["call"]].get("legacy_underflow") for f in fails):
+            res.add_known(fid, kf[fid]["what"])
+            continue
+        res.add_violation({"suite": "stack-honesty", "behaviour": b, "fails": fails, "def": b["calls"][0]["def"],
+                           "what": fails[0]["what"], "signature": "stack-honesty|" + fails[0]["what"] + "|" + b["calls"][0]["def"]})
 
 
 def replay(path):
     """Re-run the TLC record of a violation file through the harness: exit 1 iff it still contradicts the reference."""
     vlib.build_harness(BIN)
     v = json.load(open(path))
+    if v.get("suite") == "stack-honesty":
+        import scriptlib
+        vlib.build_harness("gvh")
+        return scriptlib.replay_one(path, PROP)
     rec = v.get("behaviour")
     if rec is None:
         print("violation file carries no behaviour record")
